@@ -1321,7 +1321,13 @@ class Session:
         # Create an object to hold the keys
         keys = PairingKeys()
         keys.address_type = peer_address.address_type
-        authenticated = self.pairing_method != PairingMethod.JUST_WORKS
+        # Keys are authenticated only if the pairing method that was used protects
+        # against MITM (Just Works does not, and CTKD runs no pairing method at all)
+        authenticated = self.pairing_method in (
+            PairingMethod.PASSKEY,
+            PairingMethod.NUMERIC_COMPARISON,
+            PairingMethod.OOB,
+        )
         if self.sc or self.connection.transport == PhysicalTransport.BR_EDR:
             keys.ltk = PairingKeys.Key(value=self.ltk, authenticated=authenticated)
         else:
